@@ -204,14 +204,14 @@ def parse_template(path):
                 t = arg.split(None, 1)
                 cur.steps.append(('rule', t[0], t[1] if len(t) > 1 else ''))
             elif key == 'rewrite':
-                mm = re.fullmatch(r'(\S+)\s+/(.*)/ => (.*)', arg)
+                mm = re.fullmatch(r'(\S+)\s+/(.*)/ =>(?: (.*))?', arg)
                 if not mm:
                     raise ExtractError('template %s:%d bad rewrite' % (path, ln))
-                cur.steps.append(('rewrite', mm.group(1), mm.group(2), mm.group(3)))
+                cur.steps.append(('rewrite', mm.group(1), mm.group(2), mm.group(3) or ''))
             elif key in ('contract', 'body-start', 'body-end'):
                 curtext = [key, None, [], ln]
                 cur.texts.append(curtext)
-            elif key in ('loop', 'loop-body-start', 'loop-body-end'):
+            elif key in ('loop', 'loop-body-start', 'loop-body-end', 'loop?'):
                 curtext = [key, int(arg), [], ln]
                 cur.texts.append(curtext)
             elif key in ('before', 'after', 'before?', 'after?'):
@@ -466,7 +466,9 @@ def expand_block(blk, gen, unit_id):
         for (t, ln) in lst:
             if k == 'contract':
                 contract_text, contract_ln = t, ln
-            elif k == 'loop':
+            elif k == 'loop?' and arg >= len(loops):
+                gen.skipped_hints.append(dict(block=blk.label, anchor='loop %d' % arg, matches=0, tpl_line=ln))
+            elif k in ('loop', 'loop?'):
                 if arg >= len(loops):
                     raise ExtractError('lost anchor: loop %d not found in %s (have %d)' % (arg, blk.label, len(loops)))
                 inserts.append((loops[arg][1], 0, '\n' + t + '\n', ln, ('loop', arg)))
@@ -569,7 +571,7 @@ def expand_block(blk, gen, unit_id):
             has_req = True
     # loop clauses: locate them in generated text via tags
     for (k, arg), lst in texts.items():
-        if k != 'loop':
+        if k not in ('loop', 'loop?') or arg >= len(loops):
             continue
         for (t, ln) in lst:
             # find generated line where this block starts
